@@ -4,6 +4,11 @@ import json, os
 HERE = os.path.dirname(os.path.abspath(__file__))
 
 CLAIMED = {
+ 'C03': dict(
+   text='For each of the 12 tbb::parallel_for / parallel_reduce call sites of the library (all specialisations of the generic-lambda bodies) an effect analysis classifies every write of the task body as W-local, W-concurrent (growth of a tbb::concurrent_* container) or W-own-index (v[i] with i the induction variable of the task\'s own blocked_range, every other access to v being v[i] or a read v[j] with j proved outside the whole parallel range by linear-form subtraction); anything else, and any static-storage write in a transitive callee, is a race. For parallel_reduce the identity, the join (truth table over found flags and weight orderings: a minimum that treats not-found as identity) and the body (returns its accumulator, updates it only under found(x) & (!found(acc) | less)) are decided exactly. These are the schedule-independent clauses; "delivers the sequential contract" beyond them inherits the limits of C01/C02.',
+   note='Assumes disjoint node ownership of distinct SPTree objects, TBB\'s documented concurrency guarantees for concurrent_vector growth, and that non-repo callees do not modify const-reference arguments.',
+   technique='parallel-body effect analysis (access paths, own-index proof by linear forms) + finite predicate abstraction (truth tables) of join/body on exact CFG path conditions',
+   ref='DESIGN.md §3 A6/A3, §4 C03'),
  'C07': dict(
    text='Decides five named UB shapes on the resolved program, each a genuine way the property fails: internal spanner descriptors escaping to the caller (world inference), reference members bound to dying non-empty temporaries at every direct/emplace/make_shared construction site, NUL stores into the fgets buffer that can hit buffer[-1] and unbounded %s conversions, dereference of end(), and unchecked v[i] in blocked_range task bodies whose range bound is not tied to the container size. General absence of out-of-bounds accesses, overflow, leaks and uninitialised reads is NOT claimed: no sound static argument in reach bounds the indices and integer ranges of the Dijkstra/heap/BFS loops.',
    note='Partial by design; temporaries of empty classes bound to reference members are reported as info only (no execution can observe them).',
